@@ -35,6 +35,11 @@ def compare_with_oracle(ctx, job, cres, pres, pid):
     if not cres.get("run_ok"):
         ctx.violation("compiled generated filter crashed at run time", dict(rep, stdout=cres.get("stdout_tail")), key="cpp-crash")
         return False
+    rr = cres.get("rerender")
+    if rr is not None and not (rr.get("header_same") and rr.get("source_same")):
+        ctx.violation("rendering header / source a second time from the same generator object gives a different text "
+                      f"(header same: {rr.get('header_same')}, source same: {rr.get('source_same')}{', ' + rr['raised'] if rr.get('raised') else ''})",
+                      dict(rep, rerender=rr), key="cpp-rerender-differs")
     for pi, (p, run) in enumerate(zip(job["points"], cres["runs"])):
         orc = pres["points"][pi]["oracle"] if pres and "points" in pres else {"_failed": "no oracle"}
         rp = dict(rep, inputs=p)
@@ -129,11 +134,29 @@ def compare_with_oracle(ctx, job, cres, pres, pid):
     return True
 
 
+def check_emitted_constants(ctx, job, cres):
+    """the threshold and the maximum step the compiled filter uses are the configured binary64 values"""
+    if "error" in cres:
+        return
+    for what, emitted, want in (("innovation_filtering", cres.get("emitted_k"), job.get("k") if job.get("k") is not None else 0.0),
+                                ("max_dt_sec", cres.get("emitted_max_dt"), job.get("max_dt", 0.1))):
+        try:
+            val = float(emitted)
+        except (TypeError, ValueError):
+            ctx.violation(f"generated header does not define cpp::Config::{what} as a number: {emitted!r}", {"definition": job["defn"], what: want}, key=f"emitted-{what}")
+            continue
+        if val != float(want):
+            ctx.violation(f"generated header defines cpp::Config::{what} = {emitted} but the configured value is {want!r} "
+                          f"(difference {val - float(want):.3e}): the compiled filter decides with another constant than the Python filter",
+                          {"definition": job["defn"], what: want, "emitted": emitted}, key=f"emitted-{what}")
+
+
 def compare_with_python(ctx, job, cres, pres):
     """C07: the generated C++ filter and the Python filter agree step for step."""
     d = job["defn"]
     S = sorted(d["state"])
     n = len(S)
+    check_emitted_constants(ctx, job, cres)
     if "error" in cres or not cres.get("compile_ok") or not cres.get("run_ok") or "error" in pres:
         return
     for pi, (p, run) in enumerate(zip(job["points"], cres["runs"])):
